@@ -13,7 +13,7 @@ def Loop.ViewVer (l : Loop) : Prop := ∀ c ∈ l.db.image.shards, VerIn l c.sha
 
 /-- the replica ids of the (immutable) shard definitions are known to every membership of the shard's group -/
 def Loop.DefsKnown (defIds : Nat → List Nat) (l : Loop) : Prop :=
-  ∀ g ∈ l.groups, ∀ m ∈ g.hist, ∀ x ∈ defIds g.shard, m.Known x
+  ∀ s g, l.group? s = some g → ∀ m ∈ g.hist, ∀ x ∈ defIds s, m.Known x
 
 /-- replica `r` of shard `s` is anchored: it is a defined initial member, or every membership of the group from the
     version of Drummer's current view on knows it (it was a member of the view when Drummer asked for it to be started) -/
@@ -53,7 +53,7 @@ theorem flagged_removed (defIds : Nat → List Nat) (l : Loop) (hok : l.HistOK) 
   -- the replica is known at the view's version
   have hknown : mc.Known ci.replicaId := by
     rcases ha with hd | ⟨g', hg', c0, hc0, hid0, hall⟩
-    · exact hdk g hgm mc hmc _ (by rw [hgs, hid]; exact hd)
+    · exact hdk _ g hg mc hmc _ (by rw [hid]; exact hd)
     · rw [← hid, hg] at hg'; cases hg'
       obtain ⟨c', hc', hid', hle⟩ := himg.cov c0 hc0
       have : c' = c := himg.uniq c' hc' c hc (by rw [hid', hid0, hid])
